@@ -52,6 +52,74 @@ def gen_collection_case(g: VGen, opts: dict) -> dict:
     return {"env": g.env, "v": v, "x": x, "stream": stream, "classes": g.classes}
 
 
+def gen_scalar_case(g: VGen, opts: dict) -> dict:
+    """C02: a scalar / equality / None validator at the root; target type, subclasses, look-alikes, rest"""
+    r = g.rng
+    g.reset()
+    k = r.choice(["scalar", "scalar", "scalar", "type", "equals", "none", "patterns"])
+    if k == "scalar":
+        v = g.gen_scalar()
+    elif k == "patterns":
+        # every failure pattern of up to 4 sync + 2 async user predicates is equally likely
+        ty = r.choice(["str", "int", "bytes", "float"])
+        v = {"k": "scalar", "vid": g.vid(), "ty": ty, "coerce": None, "pre": g.procs(ty),
+             "preds": [{"k": "user", "pid": g.pid(), "fn": {"f": "const", "b": r.random() < 0.5}}
+                       for _ in range(r.choice([1, 2, 3, 4]))],
+             "apreds": [{"k": "user", "pid": g.pid(), "fn": {"f": "const", "b": r.random() < 0.5}}
+                        for _ in range(r.choice([0, 1, 2]))] or None}
+    else:
+        v = g.gen_leaf()
+        while v["k"] in ("always", "isDict"):
+            v = g.gen_leaf()
+    if r.random() < 0.1:
+        v = {"k": "user", "vid": g.vid(), "inner": v}
+    rv = v["inner"] if v["k"] == "user" else v
+    stream = r.choice(["conform", "conform", "near", "lookalike", "hostile"])
+    if stream == "hostile":
+        x = g.hostile()
+    elif stream == "lookalike":
+        x = g.mutate(g.conform(v))
+    else:
+        x = g.conform(v)
+        if stream == "near":
+            x = g.near_miss(x)
+    return {"env": g.env, "v": v, "x": x, "stream": stream, "classes": g.classes}
+
+
+def gen_record_case(g: VGen, opts: dict) -> dict:
+    """C04: a record-shaped validator at the root; present/absent/valid/invalid/extra key patterns"""
+    r = g.rng
+    g.reset()
+    k = r.choice(["record", "dictAny", "dataclass", "namedtuple", "typeddict"])
+    v = getattr(g, "gen_" + k)(r.choice([0, 0, 1, 1, 2]), False)
+    if r.random() < 0.15:
+        v = {"k": "user", "vid": g.vid(), "inner": v}
+    rv = v["inner"] if v["k"] == "user" else v
+    stream = r.choice(["conform", "pattern", "pattern", "pattern", "near", "hostile"])
+    if stream == "hostile":
+        x = g.hostile()
+    else:
+        x = g.conform(v)
+        if stream == "near":
+            x = g.near_miss(x)
+        elif stream == "pattern" and x["t"] == "dict":
+            # every declared key independently: absent / valid / invalid; plus maybe an extra key
+            kvs = []
+            for dk, cv in zip(rv["keys"], rv["vals"]):
+                c = r.random()
+                if c < 0.3:
+                    continue
+                val = g.conform(cv)
+                if c > 0.7:
+                    val = g.mutate(val)
+                kvs.append([dk, val])
+            if r.random() < 0.3:
+                kvs.append([r.choice([{"t": "str", "s": [122, 122]}, {"t": "int", "i": 77}]), g.hostile(2)])
+            r.shuffle(kvs)
+            x = {"t": "dict", "oid": g.oid(), "kvs": kvs}
+    return {"env": g.env, "v": v, "x": x, "stream": stream, "classes": g.classes}
+
+
 def gen_wrapper_case(g: VGen, opts: dict) -> dict:
     """C05: a union / optional / maybe / lazy / user wrapper at the root"""
     r = g.rng
@@ -138,6 +206,8 @@ def core_shard(seed: int, shard: int, n: int, opts: dict) -> dict:
                 if d > 1:
                     stats["rejected_non_root"] += 1
                     nontrivial = True
+                elif o["invalid"]["err"]["e"] != "type":
+                    nontrivial = True    # rejected at the root, but past the exact-type test
                 for node in engine.walk_inv(o["invalid"]):
                     stats["err_kinds"][node["err"]["e"]] += 1
             if "valid" in o and c["v"]["k"] not in ("always",):
